@@ -27,7 +27,8 @@ from elementpath.helpers import numeric_equal, numeric_not_equal, \
 from elementpath.namespaces import get_namespace, get_expanded_name
 from elementpath.datatypes import UntypedAtomic, QName, AnyURI, \
     Duration, Integer, DoubleProxy10
-from elementpath.xpath_nodes import ElementNode, DocumentNode, XPathNode, AttributeNode
+from elementpath.xpath_nodes import ElementNode, DocumentNode, XPathNode, AttributeNode, \
+    NamespaceNode
 from elementpath.sequences import xlist
 from elementpath.sequence_types import is_instance
 from elementpath.xpath_context import XPathSchemaContext
@@ -232,6 +233,20 @@ def led__sequence_type_based_expressions(self: XPathToken, left: XPathToken) -> 
     return self
 
 
+def is_kind_test_excluded(token: XPathToken, item: ta.ItemType) -> bool:
+    """
+    True if the item cannot match the kind test of an 'instance of' / 'treat as' expression
+    whatever the evaluation of the kind test as a path step selects: attribute() selects the
+    attributes of an element, namespace-node() its namespaces, node() skips a document node
+    that is not the root of the context.
+    """
+    if token.symbol == 'attribute':
+        return not isinstance(item, AttributeNode)
+    elif token.symbol == 'namespace-node':
+        return not isinstance(item, NamespaceNode)
+    return False
+
+
 @method('instance')
 def evaluate__instance_expression(self: XPathToken, context: ta.ContextType = None) -> bool:
     occurs = self[1].occurrence
@@ -249,7 +264,13 @@ def evaluate__instance_expression(self: XPathToken, context: ta.ContextType = No
             if context.axis is None:
                 context.axis = 'self'
 
-            result = self[1].evaluate(context)
+            if is_kind_test_excluded(self[1], context.item):
+                return False
+            elif self[1].symbol == 'node' and isinstance(context.item, XPathNode):
+                result = context.item
+            else:
+                result = self[1].evaluate(context)
+
             if isinstance(result, list) and not result:
                 return False
             elif position and occurs in ('', '?'):
@@ -297,7 +318,13 @@ def evaluate__treat_expression(self: XPathToken, context: ta.ContextType = None)
             if context.axis is None:
                 context.axis = 'self'
 
-            result = self[1].evaluate(context)
+            if is_kind_test_excluded(self[1], item):
+                raise self.error('XPDY0050')
+            elif self[1].symbol == 'node' and isinstance(item, XPathNode):
+                result = item
+            else:
+                result = self[1].evaluate(context)
+
             if not result and isinstance(result, list):
                 raise self.error('XPDY0050')
             elif position and occurs in ('', '?'):
